@@ -4,7 +4,7 @@ for binary classification tasks.
 
 from typing import Callable
 
-from numpy import add, array, searchsorted, sqrt, unique, zeros
+from numpy import add, argsort, array, sqrt, unique, zeros
 from pandas import DataFrame, Series, crosstab
 from scipy.stats import chi2_contingency
 
@@ -181,15 +181,21 @@ class BinaryCarver(BaseCarver):
         # all indices that may be duplicated
         index_values = array([groupby.get(index_value, index_value) for index_value in xtab.index])
 
-        # all unique indices deduplicated
-        unique_indices = unique(index_values)
+        # all unique indices deduplicated, kept in the crosstab's order (the feature's order, so that
+        # computations do not depend on how the labels sort as strings)
+        unique_indices, first_positions, positions = unique(
+            index_values, return_index=True, return_inverse=True
+        )
+        ordering = argsort(first_positions)
+        unique_indices = unique_indices[ordering]
+        ranks = argsort(ordering)
 
         # initiating summed up array with zeros
         summed_values = zeros((len(unique_indices), len(xtab.columns)))
 
         # for each unique_index found in index_values sums xtab.Values at corresponding position
         # in summed_values
-        add.at(summed_values, searchsorted(unique_indices, index_values), xtab.values)
+        add.at(summed_values, ranks[positions], xtab.values)
 
         # converting back to dataframe
         return DataFrame(summed_values, index=unique_indices, columns=xtab.columns)
